@@ -15,9 +15,15 @@ use core::{
     cell::UnsafeCell,
     ops::{Deref, DerefMut, Drop},
 };
+#[cfg(not(metrique_verif))]
 use std::{
     fmt::Debug,
     sync::{Arc, Mutex, Weak},
+};
+#[cfg(metrique_verif)]
+use ::{
+    detsim::sync::{Arc, Mutex, Weak},
+    std::fmt::Debug,
 };
 /// [`Parent`] owner
 ///
